@@ -5,7 +5,8 @@
  *
  * Calls counted: fork, pipe, fcntl (F_SETFL on a result-channel descriptor), tmpfile, write and read on a
  * result-channel descriptor (the descriptors returned by pipe()), and malloc called from inside
- * send_cgreen_message()/receive_cgreen_message() ("msend", "mrecv"; found through the return address).
+ * send_cgreen_message()/receive_cgreen_message() ("msend", "mrecv"; found through the return address), and
+ * every other malloc/calloc/realloc/strdup made by code of libcgreen.so once the run has opened its result channel ("mlib").
  * Counters live in shared memory so that "the k-th call" is the k-th of the whole run, parent and children.
  */
 #define _GNU_SOURCE
@@ -19,8 +20,8 @@
 #include <sys/mman.h>
 #include <unistd.h>
 
-enum { C_FORK, C_PIPE, C_FCNTL, C_TMPFILE, C_WRITE, C_READ, C_MSEND, C_MRECV, NCALLS };
-static const char *names[NCALLS] = { "fork", "pipe", "fcntl", "tmpfile", "write", "read", "msend", "mrecv" };
+enum { C_FORK, C_PIPE, C_FCNTL, C_TMPFILE, C_WRITE, C_READ, C_MSEND, C_MRECV, C_MLIB, NCALLS };
+static const char *names[NCALLS] = { "fork", "pipe", "fcntl", "tmpfile", "write", "read", "msend", "mrecv", "mlib" };
 
 static struct Shared { int counts[NCALLS]; int fired; int chan[64]; int nchan; } *sh;
 static int target = -1, target_k = 0;
@@ -119,19 +120,65 @@ ssize_t read(int fd, void *buf, size_t n) {
     return real(fd, buf, n);
 }
 
+/* 0: not libcgreen's; otherwise the counter the allocation belongs to */
+static int lib_site(void *ra, size_t size) {
+    Dl_info info;
+    if (!dladdr(ra, &info)) return -1;
+    if (size <= 64 && info.dli_sname) {
+        if (!strcmp(info.dli_sname, "send_cgreen_message")) return C_MSEND;
+        if (!strcmp(info.dli_sname, "receive_cgreen_message")) return C_MRECV;
+    }
+    if (sh->nchan > 0 && info.dli_fname && strstr(info.dli_fname, "libcgreen")) return C_MLIB;
+    return -1;
+}
+
+extern void *__libc_calloc(size_t, size_t);
+extern void *__libc_realloc(void *, size_t);
+static __thread int busy;
+
 void *malloc(size_t size) {
-    if (ready && size <= 64) {
-        Dl_info info;
-        void *ra = __builtin_return_address(0);
-        static __thread int busy;
-        if (!busy) {
-            busy = 1;
-            if (dladdr(ra, &info) && info.dli_sname) {
-                if (!strcmp(info.dli_sname, "send_cgreen_message")) { if (hit(C_MSEND)) { busy = 0; errno = ENOMEM; return NULL; } }
-                else if (!strcmp(info.dli_sname, "receive_cgreen_message")) { if (hit(C_MRECV)) { busy = 0; errno = ENOMEM; return NULL; } }
-            }
-            busy = 0;
-        }
+    if (ready && !busy) {
+        busy = 1;
+        int c = lib_site(__builtin_return_address(0), size);
+        int fail = c >= 0 && hit(c);
+        busy = 0;
+        if (fail) { errno = ENOMEM; return NULL; }
     }
     return __libc_malloc(size);
+}
+
+void *calloc(size_t n, size_t size) {
+    if (ready && !busy) {
+        busy = 1;
+        int c = lib_site(__builtin_return_address(0), (size_t)-1);
+        int fail = c >= 0 && hit(c);
+        busy = 0;
+        if (fail) { errno = ENOMEM; return NULL; }
+    }
+    return __libc_calloc(n, size);
+}
+
+void *realloc(void *p, size_t size) {
+    if (ready && !busy) {
+        busy = 1;
+        int c = lib_site(__builtin_return_address(0), (size_t)-1);
+        int fail = c >= 0 && hit(c);
+        busy = 0;
+        if (fail) { errno = ENOMEM; return NULL; }
+    }
+    return __libc_realloc(p, size);
+}
+
+char *strdup(const char *t) {
+    size_t n = strlen(t) + 1;
+    if (ready && !busy) {
+        busy = 1;
+        int c = lib_site(__builtin_return_address(0), (size_t)-1);
+        int fail = c >= 0 && hit(c);
+        busy = 0;
+        if (fail) { errno = ENOMEM; return NULL; }
+    }
+    char *r = (char *)__libc_malloc(n);
+    if (r) memcpy(r, t, n);
+    return r;
 }
